@@ -18,6 +18,7 @@ const modulePath = "github.com/remieven/ysgo"
 
 // Env is everything loaded once per run: the SSA of the real code and all contracts.
 type Env struct {
+	overlay map[string][]byte // files replaced for this run (a mutant applied without touching the repository)
 	fset     *token.FileSet
 	prog     *ssa.Program
 	pkgs     []*packages.Package
@@ -78,7 +79,7 @@ func loadEnv(repo string, specDir string, overlay map[string][]byte) (*Env, erro
 	}
 	prog, spkgs := ssautil.AllPackages(pkgs, ssa.NaiveForm)
 	prog.Build()
-	env := &Env{fset: prog.Fset, prog: prog, pkgs: pkgs, spkgs: spkgs,
+	env := &Env{overlay: overlay, fset: prog.Fset, prog: prog, pkgs: pkgs, spkgs: spkgs,
 		byName: map[string]*ssa.Package{}, byPath: map[string]*ssa.Package{},
 		funcC: map[string]*Decl{}, extC: map[string]*Decl{}, ifaceC: map[string]*Decl{}, ftypeC: map[string]*Decl{},
 		pures: map[string][]*Decl{}, externs: map[string]*Decl{}, dtypes: map[string]*Decl{}, ctors: map[string]*Decl{},
